@@ -37,6 +37,14 @@ TITLES = {
     'C19/2': ('CSV column-count check done once per batch on the total field count', 'ragged rows whose surplus and deficit cancel within one batch'),
     'C20/1': ('LIKE prefix classifier compares a byte index with a character count', 'a pattern with a multi-byte character before a trailing %'),
     'C20/2': ('rpad trims the overshoot by bytes instead of characters', 'a multi-byte character among the characters to drop'),
+    'C15/1': ('Session::bind returns the verification plan\'s error before restoring enable_optimizer / enable_hash_joins', 'SET verify_optimized_plan TO true and a query whose optimized plan binds but whose unoptimized plan fails'),
+    'C15/2': ('tokenizer enters the number branch for any Unicode numeric character but only consumes ASCII digits', 'a non-ASCII numeric character at a token start (SELECT \u00b2): the tokenizer never advances'),
+    'C05b/1': ('IS [NOT] DISTINCT FROM tests the validity mask with the dictionary index instead of the row index', 'an input with a NULL and a dictionary-selected input (above a filter, in a CASE branch)'),
+    'C05b/2': ('integer literal narrowing in overload resolution accepts MAX + 1 (off-by-one bound)', 'a literal equal to 128 / 32768 / 2147483648 next to a TINYINT / SMALLINT / INT operand'),
+    'C13b/1': ('FLOAT -> DECIMAL rounds with floor(x + 0.5) instead of round-half-away', 'a negative value that is an exact tie after scaling (-2.5 at scale 0, -0.125 at scale 2)'),
+    'C13b/2': ('BIGINT literal narrowed to INT by wrapping during overload resolution', 'an integer literal beyond the INT range next to an INT operand'),
+    'C12b/1': ('DECIMAL * INTEGER casts the integer operand to the left operand\'s decimal type', 'decimal on the left with scale > 0, integer on the right, and a parent expression using the product'),
+    'C12b/2': ('SUM merge of partial states uses an unchecked add', 'partial sums that are representable while the total is not (two partitions)'),
 }
 # how the machinery fared before / after strengthening (filled by hand from the session log)
 HISTORY = json.load(open('/verif/seeded/history.json')) if os.path.exists('/verif/seeded/history.json') else {}
@@ -70,7 +78,7 @@ for key in sorted(detect):
     title, needs = TITLES.get(key, ('', ''))
     caught = [d for d in detect[key] if d['violations']]
     meta = dict(
-        id=sid, property=prop, breaks=title, needs_to_manifest=needs,
+        id=sid, property=prop[:3], breaks=title, needs_to_manifest=needs,
         produced_by='independent sub-agent given only the property text and a scratch worktree',
         confirmation=dict(ran=[s['step'] for s in conf['steps']], demo_passes_without_change=conf['steps'][0]['passed'],
                           demo_fails_with_change=not conf['steps'][1]['passed'], compiles=conf['steps'][1].get('compiles'),
